@@ -1005,6 +1005,7 @@ func pMapPreserveOrder[T any, R any](f TransformerFunctor[T, R], list []T, worke
 			defer wg.Done()
 
 			for m := range chJobs {
+				verifAt("pmap.worker.got")
 				for k, v := range m {
 					chResult <- map[int]R{k: f(v)}
 				}
@@ -1054,6 +1055,7 @@ func pMapNoOrder[T any, R any](f TransformerFunctor[T, R], list []T, worker int)
 			defer wg.Done()
 
 			for v := range chJobs {
+				verifAt("pmap.worker.got")
 				chResult <- f(v)
 			}
 		}(chResult, chJobs)
@@ -1728,6 +1730,7 @@ func CurryNewGenerics[T any, R any](fn func(c *CurryDef[T, R], args ...T) R) *Cu
 // Call Call the currying function by partial or all args
 func (currySelf *CurryDef[T, R]) Call(args ...T) *CurryDef[T, R] {
 	currySelf.callM.Lock()
+	verifAt("curry.Call.locked")
 	if !currySelf.isDone.Get() {
 		currySelf.args = append(currySelf.args, args...)
 		currySelf.result = currySelf.fn(currySelf, currySelf.args...)
